@@ -94,7 +94,7 @@ def profiles(draw):
     return p
 
 
-CALLS = ["colors", "colors_hex", "name_version", "cell_size", "kitty", "iterm2", "auto_class", "AutoImage",
+CALLS = ["colors", "colors_hex", "colors_hex_false", "name_version", "cell_size", "kitty", "iterm2", "auto_class", "AutoImage",
          "from_file", "ratio_fixed", "ratio_dynamic"]
 
 
@@ -186,6 +186,9 @@ def check_queries(c, rec):
                 elif call == "colors_hex":
                     got = U.get_fg_bg_colors(hex=True)
                     exp = tuple(map(R.hexs, R.colors(p, enabled)))
+                elif call == "colors_hex_false":
+                    got = U.get_fg_bg_colors(hex=False)
+                    exp = R.colors(p, enabled)
                 elif call == "name_version":
                     got = U.get_terminal_name_version()
                     exp = R.name_version(p, environ, enabled)
@@ -298,7 +301,7 @@ def check_realtime(c, rec):
             with RealTimeDriver(T):
                 for call in c["calls"]:
                     t0 = _time.monotonic()
-                    if call in ("colors", "colors_hex"):
+                    if call in ("colors", "colors_hex", "colors_hex_false"):
                         got = U.get_fg_bg_colors()
                         exp = R.colors(p, True)
                     elif call == "name_version":
